@@ -342,7 +342,8 @@ class C03(Prop):
         kids = rng.random() < 0.35
         cfg = gen.gen_base_cfg(rng, seed, kids=kids,
                                stop_children_p=0.7 if kids else 0.1,
-                               stop_signals=(15, 15, 2, 3, 10, 1),
+                               # (37, 50: real-time signals without a name)
+                               stop_signals=(15, 15, 2, 3, 10, 1, 37, 50),
                                max_age_p=0.2,
                                kinds=('obedient', 'slow', 'stubborn',
                                       'selective', 'selfexit'))
